@@ -389,7 +389,25 @@ def subtypes(t):
 
 
 def owns_heap(t):
-    return any(s["k"] in ("string", "list", "map") for s in subtypes(t))
+    """does a value of this type own separately allocated buffers?  (the payload type of a future/stream handle does
+    not count: the handle is an index)"""
+    t = strip_alias(t)
+    if t is None:
+        return False
+    k = t["k"]
+    if k in ("string", "list", "map"):
+        return True
+    if k == "record":
+        return any(owns_heap(f[1]) for f in t["fields"])
+    if k == "tuple":
+        return any(owns_heap(x) for x in t["items"])
+    if k == "variant":
+        return any(owns_heap(c[1]) for c in t["cases"])
+    if k in ("option", "fixed"):
+        return owns_heap(t["t"])
+    if k == "result":
+        return owns_heap(t["ok"]) or owns_heap(t["err"])
+    return False
 
 
 def shape(t):
@@ -1041,6 +1059,7 @@ def plan_units(units, exe_o, calls_per_func, max_calls):
         if r in ("ILL-TYPED", "BAD-SPEC-COMMAND") or r.startswith("MODEL-EXN"):
             u.status, u.detail = "tie", "oracle allocs failed for %s: %s" % (fn.label(), r[:200])
             continue
+        c.allocs_reply = r
         nxt = c.region()
         if fn.dir == "export" and fn.indirect:
             c.args_addr = nxt
@@ -1242,6 +1261,7 @@ def emit_unit(u):
     w("int main(void) {")
     w("  static char buf[1 << 20]; setvbuf(stdout, buf, _IOFBF, sizeof buf);")
     w("  gr_init();")
+    emit_layout_probes(u, o)
     for c in u.calls:
         if c.fn.dir == "import":
             w("  gr_import_call_%d();" % c.k)
@@ -1455,30 +1475,58 @@ def emit_import_call(u, c, o):
 
 
 def emit_resource_scenario(u, o):
-    """C11, resource half.  For every resource of every exported interface the host (a) would call the destructor
-    through the export the component encoder wires, i.e. the one carrying wit-parser's canonical name
-    `<iface>#[dtor]<resource>`; natively we call exactly that function when the generated code defines it."""
+    """C11, resource half.  Exported resources: the user code creates instances (X_new), reads the representation back
+    (X_rep), and the host drops the owned handle: a component-model host then calls the destructor through the export the
+    component encoder wires, i.e. the one carrying wit-parser's canonical name `<iface>#[dtor]<resource>`; natively we
+    call exactly that function iff the generated code defines it.  Imported resources: the user drops owned handles
+    through the generated X_drop_own, which must reach the host's [resource-drop] exactly once."""
     w = o.append
     u.res_plan = []
     rng = vf.Rng(u.seed ^ 0x5151)
+    all_canon = [x["dtor"] for i2 in u.desc["items"] if i2["dir"] == "export" for x in i2["resources"]]
     for it in u.desc["items"]:
-        if it["dir"] != "export":
-            continue
         for r in it["resources"]:
-            canon = r["dtor"]
-            d = u.src.exports.get(canon)
-            others = [n for n in u.src.exports if "#[dtor]" in n and n not in [x["dtor"] for i2 in u.desc["items"] for x in i2["resources"] if i2["dir"] == "export"]]
-            newd = u.src.imports.get(tuple(r["new"]))
-            ndrops = rng.range(1, 3)
-            reps = [rng.range(1, 1 << 20) * 8 for _ in range(ndrops)]
-            u.res_plan.append({"iface": it["iface"], "resource": r["name"], "canonical": canon, "wired": d is not None,
-                               "reps": reps, "dtor_exports": sorted(n for n in u.src.exports if "#[dtor]" in n)})
-            w("  gr_phase(\"R %s|%s\");" % (it["iface"], r["name"]))
-            for rep in reps:
-                w("  gr_res_event(\"host-drop\", %s, %d);" % (c_str(canon), rep))
-                if d is not None:
-                    pt = d["params"][0][0]
-                    w("  %s((%s %s)(uintptr_t)%dULL);" % (d["symbol"], pt.name, "*" * pt.nptr, rep))
+            w("  gr_phase(\"R %s %s|%s\");" % (it["dir"], it["iface"], r["name"]))
+            if it["dir"] == "export":
+                canon = r["dtor"]
+                d = u.src.exports.get(canon)
+                newd = u.src.imports.get(tuple(r["new"]))
+                repd = u.src.imports.get(tuple(r["rep"]))
+                n = rng.range(1, 3)
+                reps = [rng.range(1, 1 << 20) * 8 for _ in range(n)]
+                plan = {"kind": "exported", "iface": it["iface"], "resource": r["name"], "canonical": canon, "wired": d is not None,
+                        "reps": reps, "dtor_exports": sorted(x for x in u.src.exports if "#[dtor]" in x), "roundtrip": []}
+                u.res_plan.append(plan)
+                new_fn = rep_fn = None
+                if newd and repd and newd["symbol"].startswith("__wasm_import_") and newd["symbol"].endswith("_new"):
+                    base = newd["symbol"][len("__wasm_import_"):-len("_new")]
+                    pn, pr = u.hdr.proto(base + "_new"), u.hdr.proto(base + "_rep")
+                    if pn and pr and len(pn.params) == 1 and len(pr.params) == 1:
+                        new_fn, rep_fn = pn, pr
+                for rep in reps:
+                    if new_fn:
+                        pt = new_fn.params[0][0]
+                        w("  { %s = %s((%s %s)(uintptr_t)%dULL);" % (cdecl(new_fn.ret, "h"), new_fn.name, pt.name, "*" * pt.nptr, rep))
+                        w("    gr_res_event(\"rep-back\", \"-\", (int64_t)(uintptr_t)%s(h)); }" % rep_fn.name)
+                        plan["roundtrip"].append((rep, rep))
+                    w("  gr_res_event(\"host-drop\", %s, %d);" % (c_str(canon), rep))
+                    if d is not None:
+                        pt = d["params"][0][0]
+                        w("  %s((%s %s)(uintptr_t)%dULL);" % (d["symbol"], pt.name, "*" * pt.nptr, rep))
+            else:
+                dd = u.src.imports.get(tuple(r["drop"]))
+                if not dd or not (dd["symbol"].startswith("__wasm_import_") and dd["symbol"].endswith("_drop")):
+                    continue
+                base = dd["symbol"][len("__wasm_import_"):-len("_drop")]
+                p = u.hdr.proto(base + "_drop_own")
+                if not p or len(p.params) != 1:
+                    continue
+                hs = [rng.range(1, 1 << 30) for _ in range(rng.range(1, 2))]
+                u.res_plan.append({"kind": "imported", "iface": it["iface"], "resource": r["name"], "handles": hs, "drop_fn": p.name,
+                                   "drop_import": "%s|%s" % tuple(r["drop"])})
+                ms = u.gen.struct(p.params[0][0], "own handle", 1)
+                for h in hs:
+                    w("  { %s; memset(&h, 0, sizeof h); h.%s = (int32_t)%dU; %s(h); }" % (cdecl(p.params[0][0], "h"), ms[0].name, h, p.name))
 
 
 # =============================================================================================== build + run
@@ -1796,3 +1844,523 @@ def run_batch(units, tier_asan=False, calls_per_func=3, max_calls=60, tag="run",
     t4 = time.time()
     return {"t_generate": round(t1 - t0, 2), "t_plan": round(t2 - t1, 2), "t_build_run": round(t3 - t2, 2), "t_lift": round(t4 - t3, 2),
             "rundir": rundir}
+
+
+# =============================================================================================== shrinking / replay
+def synth_wit(f, direction, both=False):
+    """A minimal WIT package holding just function `f` (a cdescribe function description) and the named types it
+    mentions, in one interface that the world imports / exports (`both`: imports and exports)."""
+    import witgen
+    defs, order, names = {}, [], {}
+
+    def nm(n):
+        return witgen.esc(n)
+
+    def define(name, key, text_fn):
+        if name in names and names[name] != key:
+            i = 2
+            while "%s-v%d" % (name, i) in names and names["%s-v%d" % (name, i)] != key:
+                i += 1
+            name = "%s-v%d" % (name, i)
+        if name not in names:
+            names[name] = key
+            defs[name] = None
+            defs[name] = text_fn(name)
+            order.append(name)
+        return nm(name)
+
+    def ty(t):
+        k = t["k"]
+        if k in PRIM_C or k == "string":
+            return k
+        if k == "errctx":
+            return "error-context"
+        n = t.get("name")
+        key = json.dumps(t, sort_keys=True)
+        o = lambda x: ty(x) if x is not None else "_"
+        if k == "alias":
+            inner = ty(t["t"])
+            return define(n, key, lambda nn: "  type %s = %s;\n" % (nm(nn), inner))
+        if k == "record":
+            fs = ["    %s: %s,\n" % (nm(a), ty(b)) for a, b in t["fields"]]
+            return define(n, key, lambda nn: "  record %s {\n%s  }\n" % (nm(nn), "".join(fs)))
+        if k == "variant":
+            cs = ["    %s%s,\n" % (nm(a), "(%s)" % ty(b) if b is not None else "") for a, b in t["cases"]]
+            return define(n, key, lambda nn: "  variant %s {\n%s  }\n" % (nm(nn), "".join(cs)))
+        if k == "enum":
+            return define(n, key, lambda nn: "  enum %s { %s }\n" % (nm(nn), ", ".join(nm(c) for c in t["cases"])))
+        if k == "flags":
+            return define(n, key, lambda nn: "  flags %s { %s }\n" % (nm(nn), ", ".join(nm(c) for c in t["flags"])))
+        if k in ("own", "borrow"):
+            r = define(t["res"], "resource:%s" % t["rid"], lambda nn: "  resource %s;\n" % nm(nn))
+            e = r if k == "own" else "borrow<%s>" % r
+        elif k == "tuple":
+            e = "tuple<%s>" % ", ".join(ty(x) for x in t["items"])
+        elif k == "option":
+            e = "option<%s>" % ty(t["t"])
+        elif k == "result":
+            if t["ok"] is None and t["err"] is None:
+                e = "result"
+            elif t["err"] is None:
+                e = "result<%s>" % ty(t["ok"])
+            else:
+                e = "result<%s, %s>" % (o(t["ok"]), ty(t["err"]))
+        elif k == "list":
+            e = "list<%s>" % ty(t["t"])
+        elif k == "fixed":
+            e = "list<%s, %d>" % (ty(t["t"]), t["n"])
+        elif k == "map":
+            e = "map<%s, %s>" % (ty(t["key"]), ty(t["value"]))
+        elif k in ("future", "stream"):
+            e = k if t["t"] is None else "%s<%s>" % (k, ty(t["t"]))
+        else:
+            raise Tie("synth: " + k)
+        if n and k not in ("own", "borrow"):
+            return define(n, key, lambda nn: "  type %s = %s;\n" % (nm(nn), e))
+        return e
+
+    kind = f["kind"]
+    params = f["params"][1:] if kind == "method" else f["params"]
+    ps = ", ".join("%s: %s" % (nm(a), ty(b)) for a, b in params)
+    res = ty(f["result"]) if f["result"] is not None else None
+    fname = f["name"]
+    if kind == "func":
+        body = "  %s: func(%s)%s;\n" % (nm(fname), ps, " -> " + res if res else "")
+    else:
+        rname = f["resource"]
+        # the resource may already have been defined as a plain `resource r;` through a handle type: replace it
+        item = fname.split(".", 1)[1] if "." in fname else ""
+        if kind == "constructor":
+            inner = "    constructor(%s)%s;\n" % (ps, "" if strip_alias(f["result"])["k"] == "own" else " -> " + res)
+        elif kind == "method":
+            inner = "    %s: func(%s)%s;\n" % (nm(item), ps, " -> " + res if res else "")
+        else:
+            inner = "    %s: static func(%s)%s;\n" % (nm(item), ps, " -> " + res if res else "")
+        txt = "  resource %s {\n%s  }\n" % (nm(rname), inner)
+        if rname in defs:
+            defs[rname] = txt
+        else:
+            names[rname] = "resource"
+            defs[rname] = txt
+            order.insert(0, rname)
+        body = ""
+    wit = "package t:p;\n\ninterface i {\n%s%s}\n\nworld w {\n%s%s}\n" % (
+        "".join(defs[n] for n in order), body,
+        "  import i;\n" if (direction == "import" or both) else "", "  export i;\n" if (direction == "export" or both) else "")
+    return wit, "w"
+
+
+def unit_from_replay(obj, uid="replay"):
+    u = Unit(uid, obj["wit"], obj.get("world", ""), obj.get("cfg_name", "cfg"), obj.get("cfg_words", ""), obj.get("seed", 1))
+    if obj.get("calls") is not None:
+        u.forced = obj["calls"]
+    return u
+
+
+def replay_obj(u, calls=None):
+    return {"engine": "genrun_c", "wit": u.wit, "world": u.world, "cfg_name": u.cfg_name, "cfg_words": u.cfg_words, "seed": u.seed,
+            "calls": None if calls is None else [{"label": c.fn.label(), "args": c.args_s, "ret": c.ret_s} for c in calls]}
+
+
+def shrink_case(u, c, still_fails, tag):
+    """Minimise a failing call: (1) the single call in its world, (2) the single function alone in a synthesised
+    world, (3) smaller values.  `still_fails(unit) -> bool` re-judges a freshly run unit.  Returns a replay object."""
+    best = replay_obj(u, [c])
+    def attempt(obj, name):
+        v = unit_from_replay(obj, uid="%s-%s" % (tag, name))
+        try:
+            run_batch([v], tag="%s-%s" % (tag, name))
+        except Exception:
+            return False
+        return v.status == "ran" and still_fails(v)
+    if not attempt(best, "s1"):
+        return replay_obj(u, u.calls)       # needs the whole history
+    both = any(it["dir"] != c.fn.dir and it["iface"] == c.fn.iface and c.fn.iface for it in u.desc["items"])
+    for b in ([False, True] if both else [False]):
+        try:
+            wit, world = synth_wit(c.fn.f, c.fn.dir, b)
+        except Tie:
+            continue
+        lab = "%s t:p/i#%s" % (c.fn.dir, c.fn.name)
+        cand = dict(best, wit=wit, world=world, calls=[{"label": lab, "args": c.args_s, "ret": c.ret_s}])
+        if attempt(cand, "s2%d" % b):
+            best = cand
+            break
+    return best
+
+
+# =============================================================================================== tie of Core/CLayout.v
+def coq_ty(t):
+    t = strip_alias(t)
+    k = t["k"]
+    prim = {"bool": "TBool", "u8": "TU8", "s8": "TS8", "u16": "TU16", "s16": "TS16", "u32": "TU32", "s32": "TS32", "u64": "TU64",
+            "s64": "TS64", "f32": "TF32", "f64": "TF64", "char": "TChar", "string": "TString", "errctx": "TErrCtx"}
+    if k in prim:
+        return prim[k]
+    o = lambda x: "(Some %s)" % coq_ty(x) if x is not None else "None"
+    if k == "record":
+        return "(TRecord [%s])" % "; ".join(coq_ty(f[1]) for f in t["fields"])
+    if k == "tuple":
+        return "(TTuple [%s])" % "; ".join(coq_ty(x) for x in t["items"])
+    if k == "variant":
+        return "(TVariant [%s])" % "; ".join(o(c[1]) for c in t["cases"])
+    if k == "enum":
+        return "(TEnum %d)" % len(t["cases"])
+    if k == "flags":
+        return "(TFlags %d)" % len(t["flags"])
+    if k == "option":
+        return "(TOption %s)" % coq_ty(t["t"])
+    if k == "result":
+        return "(TResult %s %s)" % (o(t["ok"]), o(t["err"]))
+    if k == "list":
+        return "(TList %s)" % coq_ty(t["t"])
+    if k == "map":
+        return "(TMap %s %s)" % (coq_ty(t["key"]), coq_ty(t["value"]))
+    if k == "own":
+        return "TOwn"
+    if k == "borrow":
+        return "TBorrow"
+    if k in ("future", "stream"):
+        return "(%s %s)" % ("TFuture" if k == "future" else "TStream", o(t["t"]))
+    raise Tie("coq_ty: " + k)
+
+
+def layout_probes(u, t, cty, out):
+    """(WIT subtree, C typedef name) pairs reachable from a parameter/result, matched positionally against the header.
+    Types containing a borrow of an EXPORTED resource are left out: that is a C pointer (4 bytes on wasm32, where it
+    coincides with the canonical i32; 8 bytes on the native target this probe runs on)."""
+    t0 = strip_alias(t)
+    k = t0["k"]
+    g = u.gen
+    if cty.nptr or g.is_exported_borrow(cty):
+        return
+    if any(s["k"] == "borrow" and s["owner"] in u.exported_ifaces for s in subtypes(t0)):
+        if k in ("record", "tuple", "variant", "option", "result"):
+            pass        # descend: members without such a borrow are still probed
+        else:
+            return
+    if k in ("errctx", "fixed"):
+        return
+    if not any(s["k"] == "borrow" and s["owner"] in u.exported_ifaces for s in subtypes(t0)):
+        out.append((t0, cty.name))
+    try:
+        if k in ("record", "tuple"):
+            fs = [f[1] for f in t0["fields"]] if k == "record" else t0["items"]
+            for f, m in zip(fs, g.struct(cty, k, len(fs))):
+                layout_probes(u, f, m.ty, out)
+        elif k == "list":
+            ms = g.struct(cty, "list", 2)
+            layout_probes(u, t0["t"], CTy(ms[0].ty.name, 0), out)
+        elif k in ("variant", "option", "result"):
+            _, pay = g.variant_members(t0, cty)
+            for i, c in enumerate(variant_cases(t0)):
+                if c is not None:
+                    layout_probes(u, c, pay[i][1], out)
+    except Tie:
+        pass
+
+
+def emit_layout_probes(u, o):
+    seen, probes = set(), []
+    for fn in u.funcs:
+        for (cty, _), (_, pt), of in zip(fn.cparams, fn.params, fn.opt_flat):
+            tmp = []
+            layout_probes(u, strip_alias(pt)["t"] if of else pt, CTy(cty.name, 0), tmp)
+            probes += tmp
+        if fn.kind == "scalar":
+            layout_probes(u, fn.result, fn.proto.ret, probes)
+        elif fn.kind == "retptr":
+            layout_probes(u, fn.result, CTy(fn.cret[0][0].name, 0), probes)
+    u.layout_probes = []
+    for t, cname in probes:
+        key = (coq_ty(t), cname)
+        if key in seen:
+            continue
+        seen.add(key)
+        o.append("  printf(\"Z %d %%zu %%zu\\n\", sizeof(%s), (size_t)_Alignof(%s));" % (len(u.layout_probes), cname, cname))
+        u.layout_probes.append((key[0], cname))
+
+
+def check_layout_model(units, tag):
+    """Evaluates c_size 8 / c_align 8 of Core/CLayout.v's c_repr with coqc on every probed type and compares with what
+    clang computed for the generated typedef.  -> (n compared, [mismatch descriptions], log)"""
+    obs = []
+    for u in units:
+        if u.status != "ran":
+            continue
+        got = {}
+        for l in u.stdout.split("\n"):
+            if l.startswith("Z "):
+                i, s, a = l.split()[1:]
+                got[int(i)] = (int(s), int(a))
+        for i, (term, cname) in enumerate(getattr(u, "layout_probes", [])):
+            if i in got:
+                obs.append((term, cname, got[i], u.key()))
+    terms = sorted({o[0] for o in obs})
+    if not terms:
+        return 0, [], "no probes"
+    d = os.path.join(OUT_ROOT, tag)
+    os.makedirs(d, exist_ok=True)
+    f = os.path.join(d, "LayoutTie.v")
+    with open(f, "w") as fh:
+        fh.write("From Coq Require Import List NArith.\nFrom WB Require Import Wit.Ty Canon.Spec Core.CLayout.\nImport ListNotations.\nLocal Open Scope N_scope.\n")
+        for i, t in enumerate(terms):
+            fh.write("Definition p%d : ty := %s.\n" % (i, t))
+            fh.write('Goal True. idtac "@@ %d". Abort.\nEval vm_compute in (c_size 8 (c_repr p%d), c_align 8 (c_repr p%d)).\n' % (i, i, i))
+    rc, out = vf.sh(["coqc", "-Q", os.path.join(vf.COQ, "theories"), "WB", f], cwd=d, timeout=600)
+    if rc != 0:
+        return 0, ["coqc failed on the layout tie file: " + out[-800:]], out
+    model = {}
+    for m in re.finditer(r"@@ (\d+)\s+= \((\d+), (\d+)\)", out):
+        model[terms[int(m.group(1))]] = (int(m.group(2)), int(m.group(3)))
+    bad = []
+    for term, cname, got, where in obs:
+        if model.get(term) != got:
+            bad.append("%s: clang gives sizeof/alignof(%s) = %s, Core/CLayout.v gives %s for %s" % (where, cname, got, model.get(term), term[:300]))
+    return len(obs), bad, out
+
+
+# =============================================================================================== C11: free-helper audit
+HELPER_DEF = re.compile(r"^void (\w+_free)\((\w+) \*(\w+)\) \{\n(.*?)^\}", re.S | re.M)
+
+
+def helper_bodies(u):
+    if not hasattr(u, "_helpers"):
+        u._helpers = {m.group(1): (m.group(2), m.group(4)) for m in HELPER_DEF.finditer(u.files[u.cname])}
+    return u._helpers
+
+
+def direct_members(u, t, cty):
+    """[(WIT member type, member CTy)] of the immediate components of t, matched positionally against the header"""
+    g = u.gen
+    t0 = strip_alias(t)
+    k = t0["k"]
+    out = []
+    if k in ("record", "tuple"):
+        fs = [f[1] for f in t0["fields"]] if k == "record" else t0["items"]
+        out = [(f, m.ty) for f, m in zip(fs, g.struct(cty, k, len(fs)))]
+    elif k == "list":
+        ms = g.struct(cty, "list", 2)
+        out = [(t0["t"], CTy(ms[0].ty.name, 0))]
+    elif k == "map":
+        ms = g.struct(cty, "map", 2)
+        ent = g.struct(CTy(ms[0].ty.name, 0), "map entry", 2)
+        out = [(t0["key"], ent[0].ty), (t0["value"], ent[1].ty)]
+    elif k in ("variant", "option", "result"):
+        _, pay = g.variant_members(t0, cty)
+        out = [(c, pay[i][1]) for i, c in enumerate(variant_cases(t0)) if c is not None]
+    return out
+
+
+def audit_free_helper(u, t, cty, depth=0):
+    """Why does releasing a value of type t through its generated helper leak?  Static look at the generated text.
+    -> list of (cause, C type, detail); cause 'member-helper-not-called' names the mechanism of crates/c define_dtor/free:
+    a member type owns memory and HAS a generated *_free helper, yet the enclosing helper does not call it (or the
+    enclosing helper was not generated because it would only have consisted of such calls)."""
+    out = []
+    if depth > 8 or not owns_heap(t):
+        return out
+    t0 = strip_alias(t)
+    if t0["k"] == "string":
+        return out
+    name = cty.name
+    # follow typedef aliases to the helper-bearing name
+    h = u.hdr.free_helper(name)
+    bodies = helper_bodies(u)
+    try:
+        members = direct_members(u, t, cty)
+    except Tie:
+        return out
+    heap_members = [(mt, mc) for mt, mc in members if owns_heap(mt)]
+    def member_helper(mt, mc):
+        return u.hdr.free_helper(mc.name)
+    if h is None:
+        d = u.hdr.typedefs.get(name)
+        if d and d[0] == "alias":
+            return audit_free_helper(u, t, CTy(d[1].name, 0), depth + 1)
+        if heap_members and all(member_helper(mt, mc) for mt, mc in heap_members):
+            out.append(("member-helper-not-called", name, "no %s helper although members %s have helpers" % (name, [mc.name for _, mc in heap_members])))
+        else:
+            out.append(("helper-missing", name, "no free helper for heap-owning type"))
+    else:
+        body = bodies.get(h, ("", ""))[1]
+        for mt, mc in heap_members:
+            mh = member_helper(mt, mc)
+            if mh and not re.search(r"\b%s\(" % re.escape(mh), body):
+                out.append(("member-helper-not-called", name, "%s does not call %s" % (h, mh)))
+    for mt, mc in heap_members:
+        out += audit_free_helper(u, mt, mc, depth + 1)
+    return out
+
+
+def free_targets(u, c):
+    """(WIT type, CTy) of the values the user code of call c releases through free helpers, per ledger phase"""
+    fn = c.fn
+    args, ret = [], []
+    for (cty, _), (_, pt), of in zip(fn.cparams, fn.params, fn.opt_flat):
+        if of:
+            args.append((strip_alias(pt)["t"], CTy(cty.name, 0)))
+        elif cty.nptr:
+            args.append((pt, CTy(cty.name, 0)))
+    if fn.kind == "retptr":
+        ret.append((fn.result, CTy(fn.cret[0][0].name, 0)))
+    elif fn.kind == "option-bool":
+        ret.append((strip_alias(fn.result)["t"], CTy(fn.cret[0][0].name, 0)))
+    elif fn.kind == "result-bool":
+        t = strip_alias(fn.result)
+        for x, (cty, _) in zip([x for x in ("ok", "err") if t[x] is not None], fn.cret):
+            ret.append((t[x], CTy(cty.name, 0)))
+    return args, ret
+
+
+# =============================================================================================== C11: resources
+def judge_resources(u):
+    """-> [(key class, what, plan entry)] from the resource scenario transcript"""
+    bad = []
+    ev = {}
+    for name, lines in getattr(u, "res_events", []):
+        ev[name] = [l[2:].split(" ", 2) for l in lines if l.startswith("D ")] + [["E", l[2:], ""] for l in lines if l.startswith("E ")]
+    for p in getattr(u, "res_plan", []):
+        lines = ev.get("%s %s|%s" % ("export" if p["kind"] == "exported" else "import", p["iface"], p["resource"]))
+        if lines is None:
+            continue        # the program died before this scenario (reported elsewhere)
+        if p["kind"] == "exported":
+            for rep in p["reps"]:
+                n = sum(1 for w, _, v in lines if w == "user-dtor" and int(v) == rep)
+                if n != 1:
+                    if not p["wired"]:
+                        import witgen  # noqa
+                        snake = p["resource"].replace("-", "_")
+                        alt = "%s#[dtor]%s" % (p["iface"], snake)
+                        if snake != p["resource"] and alt in p["dtor_exports"]:
+                            bad.append(("c:dtor-export-name:snake-case",
+                                        "resource `%s` exported by `%s`: the component encoder wires the destructor through the export named `%s` "
+                                        "(wit-parser wasm_export_name), the generated C defines `%s` instead, so dropping an owned handle runs the user "
+                                        "destructor %d times instead of once" % (p["resource"], p["iface"], p["canonical"], alt, n), p))
+                        else:
+                            bad.append(("c:dtor-export-missing", "no export named `%s`; exports with [dtor]: %s" % (p["canonical"], p["dtor_exports"]), p))
+                    else:
+                        bad.append(("c:dtor-count", "user destructor of `%s` ran %d times for one drop of rep %d" % (p["resource"], n, rep), p))
+                    break
+            for rep, back in p.get("roundtrip", []):
+                got = [int(v) for w, _, v in lines if w == "rep-back"]
+                if rep not in got:
+                    bad.append(("c:resource-rep-roundtrip", "X_rep(X_new(%d)) returned %s" % (rep, got), p))
+                    break
+        else:
+            for h in p["handles"]:
+                n = sum(1 for w, which, v in lines if w == "drop" and which == p["drop_import"] and int(v) & 0xFFFFFFFF == h)
+                others = [(w, which, v) for w, which, v in lines if w == "drop" and not (which == p["drop_import"])]
+                if n != 1 or others:
+                    bad.append(("c:imported-drop-own", "%s(%d) reached the host's %s %d times (other drops: %s)" % (p["drop_fn"], h, p["drop_import"], n, others), p))
+                    break
+    return bad
+
+
+# =============================================================================================== tie of Core/COwnership.v
+def coq_ty_o(t, utf16):
+    t = strip_alias(t)
+    if t["k"] == "string" and utf16:
+        return "(TList TU16)"
+    k = t["k"]
+    if k in ("record", "tuple", "variant", "option", "result", "list", "map"):
+        o = lambda x: "(Some %s)" % coq_ty_o(x, utf16) if x is not None else "None"
+        if k == "record":
+            return "(TRecord [%s])" % "; ".join(coq_ty_o(f[1], utf16) for f in t["fields"])
+        if k == "tuple":
+            return "(TTuple [%s])" % "; ".join(coq_ty_o(x, utf16) for x in t["items"])
+        if k == "variant":
+            return "(TVariant [%s])" % "; ".join(o(c[1]) for c in t["cases"])
+        if k == "option":
+            return "(TOption %s)" % coq_ty_o(t["t"], utf16)
+        if k == "result":
+            return "(TResult %s %s)" % (o(t["ok"]), o(t["err"]))
+        if k == "list":
+            return "(TList %s)" % coq_ty_o(t["t"], utf16)
+        return "(TMap %s %s)" % (coq_ty_o(t["key"], utf16), coq_ty_o(t["value"], utf16))
+    return coq_ty(t)
+
+
+def coq_val(v):
+    k = v[0]
+    if k == "b":
+        return "(VBool %s)" % ("true" if v[1] else "false")
+    if k == "n":
+        return "(VNum (%d)%%Z)" % v[1]
+    if k == "f":
+        return "(VFloat %d)" % v[1]
+    if k == "s":
+        return "(VStr [%s])" % "; ".join(str(x) for x in v[1])
+    if k == "l":
+        return "(VList [%s])" % "; ".join(coq_val(x) for x in v[1])
+    if k == "r":
+        return "(VRec [%s])" % "; ".join(coq_val(x) for x in v[1])
+    if k == "v":
+        return "(VVar %d %s)" % (v[1], "(Some %s)" % coq_val(v[2]) if v[2] is not None else "None")
+    if k == "F":
+        return "(VFlags [%s])" % "; ".join("true" if b else "false" for b in v[1])
+    raise AssertionError(k)
+
+
+def check_ownership_model(units, tag, limit=120):
+    """Core/COwnership.v [owned 8 t v] (evaluated by coqc) against the oracle's `allocs` for the same value, and
+    [release 8 (fun _ => true) t v] as a multiset against the same list.  -> (n, [mismatches])"""
+    cases = []
+    for u in units:
+        if u.status != "ran":
+            continue
+        for c in u.calls:
+            if getattr(c, "allocs_reply", None) is None or len(cases) >= limit:
+                continue
+            fn = c.fn
+            t, v = (fn.params_tuple_ty(), c.args_v) if fn.dir == "export" else (fn.result, c.ret_v)
+            if any(s["k"] in ("fixed", "errctx") for s in subtypes(t)):
+                continue
+            if not c.allocs_reply.strip():
+                if len(cases) % 4:
+                    continue
+            cases.append((coq_ty_o(t, u.utf16), coq_val(v), c.allocs_reply.split(), u.key() + " " + fn.label()))
+    if not cases:
+        return 0, []
+    d = os.path.join(OUT_ROOT, tag)
+    os.makedirs(d, exist_ok=True)
+    f = os.path.join(d, "OwnTie.v")
+    with open(f, "w") as fh:
+        fh.write("From Coq Require Import List NArith ZArith.\nFrom WB Require Import Wit.Ty Canon.Spec Core.COwnership.\nImport ListNotations.\nLocal Open Scope N_scope.\n")
+        for i, (t, v, _, _) in enumerate(cases):
+            fh.write("Definition t%d : ty := %s.\nDefinition v%d : val := %s.\n" % (i, t, i, v))
+            fh.write('Goal True. idtac "@@ %d". Abort.\nEval vm_compute in (owned 8 t%d v%d, release 8 (fun _ => true) t%d v%d).\n' % (i, i, i, i, i))
+    rc, out = vf.sh(["coqc", "-Q", os.path.join(vf.COQ, "theories"), "WB", f], cwd=d, timeout=900)
+    if rc != 0:
+        return 0, ["coqc failed on the ownership tie file: " + out[-800:]]
+    bad = []
+    chunks = re.split(r"@@ (\d+)", out)
+    got = {}
+    for j in range(1, len(chunks) - 1, 2):
+        body = chunks[j + 1]
+        m = re.search(r"=\s*\((.*)\)\s*:\s*list", body, re.S)
+        txt = m.group(1) if m else body
+        # split the pair "([..], [..])" at the top-level comma between the two lists
+        depth, cut = 0, None
+        for pos, ch in enumerate(txt):
+            if ch == "[":
+                depth += 1
+            elif ch == "]":
+                depth -= 1
+                if depth == 0 and cut is None:
+                    cut = pos + 1
+        a, b = txt[:cut], txt[cut:]
+        pa = [(int(x), int(y)) for x, y in re.findall(r"\((\d+),\s*(\d+)\)", a)]
+        pb = [(int(x), int(y)) for x, y in re.findall(r"\((\d+),\s*(\d+)\)", b)]
+        got[int(chunks[j])] = (pa, pb)
+    for i, (t, v, allocs, where) in enumerate(cases):
+        exp = [tuple(int(x) for x in a.split(":")) for a in allocs]
+        if i not in got:
+            bad.append("%s: no model output" % where)
+            continue
+        own, rel = got[i]
+        if own != exp:
+            bad.append("%s: Spec allocs %s, COwnership.owned %s" % (where, exp, own))
+        elif sorted(rel) != sorted(exp):
+            bad.append("%s: Spec allocs %s, COwnership.release %s" % (where, exp, rel))
+    return len(cases), bad
